@@ -120,6 +120,19 @@ fn nest(path: &str, depth: usize) -> Vec<u8> {
             "map-value" => { pre.extend_from_slice(&[116, 0, 0, 0, 1, 97, 1]); }
             "fun-free-var" => { pre.extend_from_slice(&fun_prefix(1)); }
             "local-ext" => { pre.extend_from_slice(&[121, 0, 0, 0, 0, 0, 0, 0, 0]); }
+            // tags whose first field is read as a term before it is required to be an atom
+            "node-of-pid" => pre.push(103),
+            "node-of-new-pid" => pre.push(88),
+            "node-of-port" => pre.push(102),
+            "node-of-new-port" => pre.push(89),
+            "node-of-v4-port" => pre.push(120),
+            "node-of-reference" => pre.push(101),
+            "node-of-new-reference" => pre.extend_from_slice(&[114, 0, 1]),
+            "node-of-newer-reference" => pre.extend_from_slice(&[90, 0, 1]),
+            "module-of-export" => pre.push(113),
+            "module-of-fun" => { let f = fun_prefix(0); pre.extend_from_slice(&f[..30]); }
+            "pid-of-fun" => { let f = fun_prefix(0); pre.extend_from_slice(&f[..37]); }
+            "mixed-identifiers" => pre.push([103u8, 88, 102, 89, 120, 101, 113][lvl % 7]),
             _ => unreachable!(),
         }
     }
@@ -186,12 +199,14 @@ pub fn run(rep: &Report) -> serde_json::Value {
         // raw-term entry gets the same bytes without the version byte
         inputs.push(Input { family: "F1-length-fields", entry: 4, bytes: b[1..].to_vec(), inflated: 0, over_declared: false, depth: 0 });
     }
-    let paths = ["list-elem", "list-tail", "small-tuple", "large-tuple", "map-key", "map-value", "fun-free-var", "local-ext", "alternating"];
+    let paths = ["list-elem", "list-tail", "small-tuple", "large-tuple", "map-key", "map-value", "fun-free-var", "local-ext", "alternating",
+        "node-of-pid", "node-of-new-pid", "node-of-port", "node-of-new-port", "node-of-v4-port", "node-of-reference", "node-of-new-reference", "node-of-newer-reference",
+        "module-of-export", "module-of-fun", "pid-of-fun", "mixed-identifiers"];
     let max_pow = if thorough { 22 } else { 16 };
     for p in paths {
         for k in 0..=max_pow {
             let depth = 1usize << k;
-            let per_level = match p { "fun-free-var" => 56, "local-ext" => 9, "large-tuple" | "list-elem" | "map-key" => 6, _ => 7 };
+            let per_level = match p { "fun-free-var" => 56, "module-of-fun" | "pid-of-fun" => 40, "local-ext" => 9, "large-tuple" | "list-elem" | "map-key" => 6, _ => 7 };
             if depth * per_level > 64 * 1024 * 1024 { break; }
             let b = nest(p, depth);
             for &e in &[0u8, 1, 2] {
@@ -281,7 +296,7 @@ pub fn run(rep: &Report) -> serde_json::Value {
     json!({
         "evaluations": rep.get("evaluations"),
         "distinct_nontrivial": distinct.len(),
-        "rule": "finite families each enumerated completely and run through 9 decode entry points in supervised child processes on a 2 MiB-stack thread with a counting allocator: F1 every tag x boundary values of one/two length fields x 4 tails (+ structured fun/ref/header counts), F2 9 nesting paths x depth 2^k, F3 every truncation of short corpus encodings, F4 byte mutations, F5 splices, F6 compressed sections (declared vs actual size, bombs, corrupt, nested), F7 fragment header prefixes; oracle: outcome in {ok,err}, peak requested bytes <= 512*(len+inflated) [a one-entry BTreeMap node is ~1.8 KB for 6 input bytes]+256KiB (zlib inflater state alone is ~90 KiB), inflated>declared => Err; distinct_nontrivial = distinct (entry,input) longer than 2 bytes",
+        "rule": "finite families each enumerated completely and run through 9 decode entry points in supervised child processes on a 2 MiB-stack thread with a counting allocator: F1 every tag x boundary values of one/two length fields x 4 tails (+ structured fun/ref/header counts), F2 21 nesting paths (containers, fun environment, LOCAL_EXT, and the node/module/creator fields of every identifier and fun tag, which are read as terms) x depth 2^k, F3 every truncation of short corpus encodings, F4 byte mutations, F5 splices, F6 compressed sections (declared vs actual size, bombs, corrupt, nested), F7 fragment header prefixes; oracle: outcome in {ok,err}, peak requested bytes <= 512*(len+inflated) [a one-entry BTreeMap node is ~1.8 KB for 6 input bytes]+256KiB (zlib inflater state alone is ~90 KiB), inflated>declared => Err; distinct_nontrivial = distinct (entry,input) longer than 2 bytes",
         "exhaustive": true,
         "families": fam,
         "outcomes": outcomes,
